@@ -230,6 +230,14 @@ def recorded_sessions(puppet, tier, rnd):
                                         THREADS(), R("continue", {}, "continue", "ok"), launch(puppet), CONFDONE(), DISC(True)],
         "launch-errors": [INIT(), R("launch", {}, "launch", "bad"), R("launch", {"program": "/nonexistent/c12"}, "launch", "noexec"),
                           R("restart", {}, "restart", "ok"), CONFDONE(), launch(puppet), CONFDONE(), DISC(False)],
+        # progress ids are predictable (bs-progress-<n>): a client may cancel the progress a later request is going
+        # to open; that request must still be answered exactly once (cancelled or not)
+        "cancel-next-progress": [INIT(), launch(puppet, (1, 1, 1, 1, 0, 0, 0)), SETBP(), CONFDONE(), THREADS()]
+                                + [R("cancel", {"progressId": f"bs-progress-{n}"}) for n in range(1, 9)]
+                                + [STACK(), THREADS(), R("scopes", {"frameId": "$frame"}), STACK(), DISC(True)],
+        "cancel-progress-storm": [INIT()] + [R("cancel", {"progressId": f"bs-progress-{n}"}) for n in range(1, 7)]
+                                 + [launch(puppet, (1, 1, 1, 1, 0, 0, 0)), SETBP_LINE(), CONFDONE(), THREADS(), STACK(),
+                                    R("disassemble", {"memoryReference": "$iref", "instructionCount": 4}), DISC(True)],
         "disconnect-first": [DISC(False)],
         "terminate-first": [R("terminate", {}, "terminate", "ok")],
         "steps-to-exit": [INIT(), launch(puppet, (1, 1, 1, 1, 0, 0, 0)), SETBP(), CONFDONE()] + [NEXT() for _ in range(8)] + [DISC(True)],
